@@ -13,7 +13,8 @@ for d in /verif/seeded/*/; do
   if ! git apply --check $P 2>/dev/null && [ -f $d/patch.rebased.diff ]; then P=$d/patch.rebased.diff; fi
   if ! git apply --check $P 2>/dev/null; then echo "NOAPPLY   $id"; miss=$((miss+1)); continue; fi
   git apply $P
-  out=$(/verif/bin/fxcheck -prop $prop -verif $T 2>&1); rc=$?
+  # dependencies type-checked from source: nothing downstream of the edit is compiled into the build cache (12-25 s per seed)
+  out=$(FXCHECK_SRCDEPS=1 /verif/bin/fxcheck -prop $prop -verif $T 2>&1); rc=$?
   git checkout -- . 
   if [ $rc -eq 1 ] && echo "$out" | grep -q "^REPORT "; then echo "DETECTED  $id $(echo "$out" | grep '^REPORT ' | head -1 | cut -c1-220)"; else echo "MISSED    $id rc=$rc"; miss=$((miss+1)); fi
 done
